@@ -352,28 +352,28 @@ func CheckC06(e *Env) (int, error) {
 		fmt.Printf("PROBE-ZERO C06: %s\n", strings.Join(zero, ","))
 	}
 	cov := map[string]interface{}{
-		"evaluations":         tot.Cases,
-		"distinct_nontrivial": distinct,
-		"rule": "a case = NewMnemonic(n, lang) against one device script; enumerated families (every failure point k x 5 error kinds x own-read/with-bytes x 3 fragmentations; error with the buffer-completing bytes; all compositions of need for the listed n; structured splits; stalls at every position) plus seeded compositions and seeded multi-fault scripts. Non-trivial: the device delivered >=1 byte or returned >=1 fault inside the call. Distinct: by digest of (n, sequence of (asked, delivered, error kind)); de-duplicated inside each worker job, jobs of different families/ranges are disjoint by construction, for chunked seeded jobs only the largest chunk per n is counted; cold-start repetitions are not counted.",
-		"exhaustive":          false,
-		"exhaustive_parts":    "every (n,k,error kind,own/with-bytes) failure point; all 2^(need-1) compositions for n=12 (quick) and n=12,15,18 (thorough); every stall position",
-		"samples":             samples,
-		"runs":                tot.Cases,
-		"worker_processes":    len(jobs),
-		"cold_start_processes": coldProcs,
-		"cold_start_cases":    coldCases,
+		"evaluations":                 tot.Cases,
+		"distinct_nontrivial":         distinct,
+		"rule":                        "a case = NewMnemonic(n, lang) against one device script; enumerated families (every failure point k x 5 error kinds x own-read/with-bytes x 3 fragmentations; error with the buffer-completing bytes; all compositions of need for the listed n; structured splits; stalls at every position) plus seeded compositions and seeded multi-fault scripts. Non-trivial: the device delivered >=1 byte or returned >=1 fault inside the call. Distinct: by digest of (n, sequence of (asked, delivered, error kind)); de-duplicated inside each worker job, jobs of different families/ranges are disjoint by construction, for chunked seeded jobs only the largest chunk per n is counted; cold-start repetitions are not counted.",
+		"exhaustive":                  false,
+		"exhaustive_parts":            "every (n,k,error kind,own/with-bytes) failure point; all 2^(need-1) compositions for n=12 (quick) and n=12,15,18 (thorough); every stall position",
+		"samples":                     samples,
+		"runs":                        tot.Cases,
+		"worker_processes":            len(jobs),
+		"cold_start_processes":        coldProcs,
+		"cold_start_cases":            coldCases,
 		"cold_start_seam_unavailable": seamUnavailable,
-		"sim_steps_total":     tot.Reads,
-		"sim_time_note":       "the system has no clock; simulated time is counted in device reads",
-		"faults_fired":        tot.Fired,
-		"probes":              tot.Probes,
-		"relaxations_applied": tot.Relaxed,
-		"by_family":           tot.ByFamily,
-		"by_language":         tot.ByLang,
-		"by_word_count":       tot.ByN,
-		"max_reads_in_one_call": tot.MaxReads,
-		"raw_violations":      tot.ViolCount,
-		"outcome_digest":      od.String(),
+		"sim_steps_total":             tot.Reads,
+		"sim_time_note":               "the system has no clock; simulated time is counted in device reads",
+		"faults_fired":                tot.Fired,
+		"probes":                      tot.Probes,
+		"relaxations_applied":         tot.Relaxed,
+		"by_family":                   tot.ByFamily,
+		"by_language":                 tot.ByLang,
+		"by_word_count":               tot.ByN,
+		"max_reads_in_one_call":       tot.MaxReads,
+		"raw_violations":              tot.ViolCount,
+		"outcome_digest":              od.String(),
 	}
 	if err := e.WriteEvidence("C06", "fault_enumeration", cov, []string{
 		"reference BIP39 encoder in /verif/ref over frozen word lists pinned by SHA-256 (validated against published vectors)",
